@@ -1,0 +1,11 @@
+//go:build verif
+
+package ShouXingUtil
+
+// VerifSaLon exposes the library's apparent solar longitude (radians) at t Julian centuries TD
+// from J2000 with n series terms (-1 = all), so that reported term instants can be checked as
+// roots of the library's own ephemeris.
+func VerifSaLon(t float64, n int) float64 { return saLon(t, n) }
+
+// VerifMsaLon exposes the moon-minus-sun apparent longitude (radians).
+func VerifMsaLon(t float64, mn int, sn int) float64 { return msaLon(t, mn, sn) }
